@@ -4,6 +4,7 @@ mod common;
 mod fault;
 mod coop;
 mod http_sys;
+mod lock_litmus;
 mod netmc;
 mod props;
 mod seqmc;
